@@ -33,6 +33,12 @@ CHECKS = {
     design="5/C14",
     note="Trusted: Lean kernel; model = implementation compared per compilation (sampled over specifications); harness's reading of the architecture YAML; numerators (operation/bit counts) are not modelled; Int stands in for the ordered field of times.",
     technique="Lean 4 proof (denotational evaluation of the generated roll-up expression) + per-compilation correspondence and independent recomputation of divisors"),
+ "C09": dict(
+    category="proof",
+    text="Lean theorem C09.gen_derives: for every HiFiber expression tree satisfying the decidable condition PrecOK, Python's expression grammar (transcribed as the derivation relation HF.Derives, stratified by binding strength, left-associative, no comparison chaining) derives from the printed token sequence exactly norm(tree): the tree without parenthesis nodes and with unparenthesised right-nested chains of ONE associative operator re-associated to the left - the only difference the property allows. Per emitted program (corpus + generated, all modes, several hash seeds) the check confirms Lean's printer reproduces the text, evaluates PrecOK on every expression of the compiler's tree, compares Lean's token model with CPython's tokenizer and norm(tree) with CPython's own parse; CoordAccess.build_expr is driven on random affine expressions.",
+    design="5/C09",
+    note="Trusted: Lean kernel; unambiguity of Python's grammar; the transcription of the grammar/tokens is validated against CPython's ast/tokenize on every text (sampled); statement/indentation structure is compared through CPython only. Fixed finding: n-way step substituted under a product without parentheses (commit 0f98053).",
+    technique="Lean 4 proof (printer vs grammar derivation, by mutual well-founded recursion over the tree) + evaluation of PrecOK on the real compiler's trees + differential against CPython's parser"),
 }
 
 NOT_YET = {}
